@@ -53,6 +53,9 @@ func (e *entry) run(w *worker, scope string, order int64, in []byte) {
 
 // runOpt is run with the read-only uses optional (decode only when use is false).
 func (e *entry) runOpt(w *worker, scope string, order int64, in []byte, use bool) {
+	if w.r.hung.Load() && w.r.giveUp(e.name) {
+		return
+	}
 	ci := e.info(scope, order, in)
 	w.begin(ci)
 	defer w.end()
